@@ -267,7 +267,7 @@ fn confirm_and_minimise(root: &str, property: &str, family: &str, seed: u64, rul
     let mut best = (0u64, seed, again.detail.clone());
     let started = Instant::now();
     'bits: for bit in 0..16u32 {
-        if started.elapsed() > Duration::from_secs(240) {
+        if started.elapsed() > Duration::from_secs(90) {
             break;
         }
         let mask = best.0 | (1u64 << bit);
